@@ -49,3 +49,9 @@ m={"version":1,
  "not_applicable":na}
 json.dump(m,open('/verif/MANIFEST.json','w'),indent=1)
 print(len(checks),"checks;",len(na),"not applicable")
+
+# record the tree of /repo the harnesses are in line with (see check.go repoIsRecordedTree)
+import subprocess
+tree = subprocess.run(["git", "-C", "/repo", "rev-parse", "HEAD^{tree}"], capture_output=True, text=True).stdout.strip()
+if tree:
+    open("/verif/REPO_TREE", "w").write(tree + "\n")
